@@ -173,7 +173,30 @@ ReplaceAllStr(s, a, fn) ==
       templ == IF fn THEN <<>> ELSE ToStrU(Arg(a, 2))
   IN RVal(VStr(ReplaceAllFrom(s, search, fn, templ, 0, 0)))
 
-Methods == {"replace", "replaceAll", "replace_fn", "replaceAll_fn", "fn:String", "fn:String.fromCharCode", "charAt", "charCodeAt", "indexOf", "lastIndexOf", "includes", "startsWith", "endsWith",
+\* function replacer whose RESULT contains dollar patterns: it is used verbatim (no GetSubstitution on a function's result)
+FnReplacementD(matched) == <<91, 36, 38, 36, 36, 36, 96, 36, 39, 93>> \o matched          \* "[$&$$$`$']" matched
+ReplaceStrD(s, a, all) ==
+  LET search == ToStrU(Arg(a, 1))
+      RECURSIVE Go(_, _)
+      Go(from, endOfLast) == LET p == IF from > Len(s) THEN -1 ELSE IndexFrom(s, search, from)
+                             IN IF p = -1 THEN Slice(s, endOfLast, Len(s))
+                                ELSE Slice(s, endOfLast, p) \o FnReplacementD(search)
+                                     \o (IF all THEN Go(p + Max(1, Len(search)), p + Len(search)) ELSE Slice(s, p + Len(search), Len(s)))
+  IN RVal(VStr(Go(0, 0)))
+\* search with a STRING argument: the text is a pattern (RegExpCreate(ToString(arg))). Specified here for patterns made of
+\* literal letters, digits, blanks and the alternation bar only: the leftmost position at which some alternative occurs
+RECURSIVE SrchSplitBar(_)
+SrchSplitBar(u) == LET S == {k \in 1..Len(u) : u[k] = 124}
+                   IN IF S = {} THEN <<u>> ELSE LET k == CHOOSE x \in S : \A y \in S : x <= y
+                                                IN <<SubSeq(u, 1, k - 1)>> \o SrchSplitBar(SubSeq(u, k + 1, Len(u)))
+SrchPlain(u) == \A k \in 1..Len(u) : u[k] = 124 \/ u[k] = 32 \/ (u[k] >= 48 /\ u[k] <= 57) \/ (u[k] >= 65 /\ u[k] <= 90) \/ (u[k] >= 97 /\ u[k] <= 122)
+SearchStr(s, a) ==
+  LET pat == IF Len(a) = 0 THEN <<>> ELSE IF IsUndef(a[1]) THEN <<>> ELSE ToStrU(a[1])
+      alts == SrchSplitBar(pat)
+      hits == {k \in 0..Len(s) : \E j \in 1..Len(alts) : OccursAt(s, alts[j], k)}
+  IN RVal(VInt(IF hits = {} THEN -1 ELSE CHOOSE k \in hits : \A q \in hits : k <= q))
+
+Methods == {"search", "replace_fnd", "replaceAll_fnd", "replace", "replaceAll", "replace_fn", "replaceAll_fn", "fn:String", "fn:String.fromCharCode", "charAt", "charCodeAt", "indexOf", "lastIndexOf", "includes", "startsWith", "endsWith",
             "substring", "slice", "repeat", "concat", "trim", "trimStart", "trimEnd",
             "toLowerCase", "toUpperCase", "toString", ".length", "[]", "split"}
 
@@ -191,6 +214,8 @@ Expected(m, s, a) ==
     [] m = "[]" -> IndexM(s, a)             [] m = "split" -> SplitM(s, a)
     [] m = "replace" -> ReplaceStr(s, a, FALSE)       [] m = "replaceAll" -> ReplaceAllStr(s, a, FALSE)
     [] m = "replace_fn" -> ReplaceStr(s, a, TRUE)     [] m = "replaceAll_fn" -> ReplaceAllStr(s, a, TRUE)
+    [] m = "replace_fnd" -> ReplaceStrD(s, a, FALSE)  [] m = "replaceAll_fnd" -> ReplaceStrD(s, a, TRUE)
+    [] m = "search" -> SearchStr(s, a)
 
 \* which argument positions are index-like (ToIntegerOrInfinity) / text-like (ToString)
 IndexPos(m) == CASE m \in {"charAt", "charCodeAt", "substring", "slice", "repeat", "fn:String.fromCharCode"} -> {1, 2}
@@ -199,11 +224,11 @@ IndexPos(m) == CASE m \in {"charAt", "charCodeAt", "substring", "slice", "repeat
 TextPos(m) == CASE m = "fn:String" -> {1}
                 [] m \in {"indexOf", "lastIndexOf", "includes", "startsWith", "endsWith", "split"} -> {1}
                 [] m = "concat" -> {1, 2}
-                [] m \in {"replace", "replaceAll", "replace_fn", "replaceAll_fn"} -> {1}
+                [] m \in {"replace", "replaceAll", "replace_fn", "replaceAll_fn", "replace_fnd", "replaceAll_fnd", "search"} -> {1}
                 [] OTHER -> {}
 \* replacement templates (ToString, then GetSubstitution)
 TemplPos(m) == IF m \in {"replace", "replaceAll"} THEN {2} ELSE {}
-Arity(m) == CASE m \in {"charAt", "charCodeAt", "repeat", "[]", "fn:String", "replace_fn", "replaceAll_fn"} -> 1
+Arity(m) == CASE m \in {"charAt", "charCodeAt", "repeat", "[]", "fn:String", "replace_fn", "replaceAll_fn", "replace_fnd", "replaceAll_fnd", "search"} -> 1
               [] m \in {"trim", "trimStart", "trimEnd", "toLowerCase", "toUpperCase", "toString", ".length"} -> 0
               [] OTHER -> 2
 
@@ -211,7 +236,9 @@ Arity(m) == CASE m \in {"charAt", "charCodeAt", "repeat", "[]", "fn:String", "re
 Supported(m, s, a) ==
   /\ Len(a) <= Arity(m)
   /\ \A i \in 1..Len(a) : (i \in IndexPos(m) => ConvSupported(a[i])) /\ (i \in TextPos(m) \cup TemplPos(m) => ToStrSupported(a[i]))
-  /\ (m \in {"replace_fn", "replaceAll_fn"} => Len(a) = 1)
+  /\ (m \in {"replace_fn", "replaceAll_fn", "replace_fnd", "replaceAll_fnd"} => Len(a) = 1)
+  /\ (m = "search" => IF Len(a) = 0 THEN TRUE
+                       ELSE (IsUndef(a[1]) \/ (a[1].k \in {"str", "num", "bool", "null"} /\ ToStrSupported(a[1]) /\ SrchPlain(ToStrU(a[1])))))
   /\ (m = "fn:String.fromCharCode" => \A i \in 1..Len(a) : Uint16Supported(a[i]))
   /\ (m \in {"fn:String", "fn:String.fromCharCode"} => s = <<>>)          \* plain functions: no receiver
   /\ (m = "repeat" => Len(a) = 1 /\ (s = <<>> \/ ToIntClamp(a[1]) <= 6 \/ ToIntClamp(a[1]) >= Lim \/ IsPosInfArg(a[1])))
